@@ -58,9 +58,9 @@ RULE = ('stream lifecycle: EVERY state x EVERY operation (start/pause/resume/sto
         'on workflows; complete/update/defer/force-fail on tasks; result delivery on actions) on the real objects, '
         'exhaustive; stream engine: generated programs with operator commands injected at random points; '
         'non-trivial = an operation whose guard matters (all lifecycle cases) / a trace with an operator command; '
-        'stream race-wf: 6 scenarios (completion check with verdict success/error/cancel, stop_workflow '
-        'SUCCESS/ERROR/CANCELLED) x 5 interferers (stop CANCELLED/ERROR/SUCCESS, pause, second completion check) x every '
-        'pre-lock significant SQL statement of the script (exhaustive, 81 cases); non-trivial = the interferer changed the row; '
+        'stream race-wf: 7 scenarios (completion check with verdict success/error/cancel, stop_workflow '
+        'SUCCESS/ERROR/CANCELLED, plain resume_workflow - monitor only) x 5 interferers (stop CANCELLED/ERROR/SUCCESS, pause, second completion check) x every '
+        'pre-lock significant SQL statement of the script (exhaustive, 86 cases); non-trivial = the interferer changed the row; '
         'stream race-action: 3 pairs of results for one action execution x the pre-lock statements of on_action_complete; '
         'stream race-task: 2 scenarios (action result vs complete_task(ERROR); the same child result twice) x the pre-lock '
         'statements on the task row')
@@ -71,7 +71,7 @@ LEAN_MODULES = ['Mistral.Props.C03', 'Mistral.Props.C03Race', 'Mistral.Props.C03
                 'Mistral.Props.C03RaceTask']
 RACE_CHUNKS = [{'family': 'wf', 'scenarios': ['cacSucceed', 'stopCancel']},
                {'family': 'wf', 'scenarios': ['cacFail', 'stopSuccess']},
-               {'family': 'wf', 'scenarios': ['cacCancel', 'stopError']},
+               {'family': 'wf', 'scenarios': ['cacCancel', 'stopError', 'resume']},
                {'family': 'action'}, {'family': 'task'}]
 
 
